@@ -200,6 +200,15 @@ def selection(repo: Repo, R, m: pt.PdkModel):
             why="a request no device satisfies raises a bare StopIteration (swallowed by enclosing generators/for-loops)")
     # model-name branch
     mdl = any(isinstance(n, ast.If) and ast.unparse(n.test) == "params.model is None" and any(isinstance(x, ast.Try) and any(au.raises(h.body, noret) for h in x.handlers) for x in n.orelse) for n in au.walk_no_nested(mm.node))
+    # ... where "in the keys" is tuple membership of the whole model name in the key, not a test on one of its components
+    exact = False
+    for n in au.walk_no_nested(mm.node):
+        if isinstance(n, (ast.ListComp, ast.GeneratorExp, ast.DictComp)) and len(n.generators) == 1 and ast.unparse(n.generators[0].iter) == "xtors.items()" and isinstance(n.generators[0].target, ast.Tuple):
+            kv = ast.unparse(n.generators[0].target.elts[0])
+            tests = [ast.unparse(c) for c in n.generators[0].ifs]
+            if any("params.model" in t for t in tests):
+                exact = tests == [f"params.model in {kv}"]
+    mdl = mdl and exact
     R.check(mdl, rule, f"pdks/{m.name}::mos_module::by-model", mm.site, f"{m.name}: selection by model name looks the name up in the keys and raises a RuntimeError on a miss: {mdl}", why="an unknown model name raises IndexError")
     # dict-keyed tables: miss -> RuntimeError
     for meth, t in sorted(m.method_table.items()):
